@@ -75,6 +75,17 @@ func Equals(point1, other geom.Coord) bool {
 			(math.IsNaN(point1[2]) && math.IsNaN(other[2])))
 }
 
+// diffOfProducts returns a*b - c*d to within a few units in the last place
+// (Kahan's algorithm with fused multiply-adds). The naive expression loses
+// all significant digits for long, nearly parallel segments, where the two
+// products agree in almost every bit.
+func diffOfProducts(a, b, c, d float64) float64 {
+	w := c * d
+	e := math.FMA(-c, d, w)
+	f := math.FMA(a, b, -w)
+	return f + e
+}
+
 // DistanceLineToLine computes the distance between two 3D segments
 func DistanceLineToLine(line1Start, line1End, line2Start, line2End geom.Coord) float64 {
 	/**
@@ -98,7 +109,7 @@ func DistanceLineToLine(line1Start, line1End, line2Start, line2End geom.Coord) f
 	d := VectorDot(line1Start, line1End, line2Start, line1Start)
 	e := VectorDot(line2Start, line2End, line2Start, line1Start)
 
-	denom := a*c - b*b
+	denom := diffOfProducts(a, c, b, b)
 	if math.IsNaN(denom) {
 		panic("Ordinates must not be NaN")
 	}
@@ -117,8 +128,8 @@ func DistanceLineToLine(line1Start, line1End, line2Start, line2End geom.Coord) f
 			t = e / c
 		}
 	} else {
-		s = (b*e - c*d) / denom
-		t = (a*e - b*d) / denom
+		s = diffOfProducts(b, e, c, d) / denom
+		t = diffOfProducts(a, e, b, d) / denom
 	}
 	if s < 0 || s > 1 || t < 0 || t > 1 {
 		// The unconstrained optimum lies outside the unit parameter square, so the minimum is
